@@ -463,3 +463,113 @@ def occurrence_counts(slots_list, annotators):
             if u is not None:
                 cnt[(a, u)] += 1
     return cnt
+
+
+# ------------------------------------------------------------------ exact (rational) costs for ties at the pruning cut
+
+def _f32_exact(q):
+    """q (Fraction) is exactly representable in float32"""
+    from fractions import Fraction
+    try:
+        f = float(q)
+    except OverflowError:
+        return False
+    return Fraction(f) == q and Fraction(float(np.float32(f))) == q
+
+
+def exact_pair_cost(spec, u, v):
+    """Fraction equal to the pair dissimilarity when every intermediate of the documented formula is exactly
+    representable in float32 (then float32 and float64 evaluation both give exactly this value); else None.
+    Supported: positional, absolute, precomputed, combined of those."""
+    from fractions import Fraction as F
+    k = spec["kind"]
+    delta = F(spec["delta"])
+    if not _f32_exact(delta):
+        return None
+
+    def pos():
+        s1, e1, s2, e2 = F(u[0]), F(u[1]), F(v[0]), F(v[1])
+        steps = [s1, e1, s2, e2, e1 - s1, e2 - s2, abs(s1 - s2), abs(e1 - e2), abs(s1 - s2) + abs(e1 - e2), (e1 - s1) + (e2 - s2)]
+        x = steps[8] / steps[9]
+        steps += [x, x * x, x * x * delta]
+        return steps[-1] if all(_f32_exact(t) for t in steps) else None
+
+    def cat(cspec):
+        if cspec is None or cspec["kind"] == "abs":
+            return F(0) if u[2] == v[2] else delta
+        if cspec["kind"] == "precomputed":
+            cats = sorted(cspec["cats"])
+            m = F(cspec["matrix"][cats.index(u[2])][cats.index(v[2])])
+            return m * delta if _f32_exact(m) and _f32_exact(m * delta) else None
+        return None
+    if k == "pos":
+        return pos()
+    if k in ("abs", "precomputed"):
+        return cat(spec)
+    if k == "combined":
+        a, b = F(spec["alpha"]), F(spec["beta"])
+        p_, c_ = pos(), cat(spec["cat"])
+        if p_ is None or c_ is None:
+            return None
+        parts = [a, b, a * p_, b * c_, a * p_ + b * c_]
+        return parts[-1] if all(_f32_exact(t) for t in parts) else None
+    return None
+
+
+def exact_tuple_sum(spec, slots):
+    """exact sum of pair costs of a tuple (NOT divided by C(n,2)), or None when some pair is not exact"""
+    from fractions import Fraction as F
+    delta = F(spec["delta"])
+    tot = F(0)
+    for i in range(len(slots)):
+        for j in range(i):
+            if slots[i] is None or slots[j] is None:
+                tot += delta
+            else:
+                c = exact_pair_cost(spec, slots[i], slots[j])
+                if c is None:
+                    return None
+                tot += c
+    return tot
+
+
+# ------------------------------------------------------------------ in-place edit histories
+
+def apply_edit(c, cont, edit, labels):
+    """applies one edit IN PLACE to the library continuum `c` and to the JSON model `cont` (returns the new model).
+    edit = ["replace", k, start, dur, label_i] | ["add", annotator_i, start, dur, label_i] | ["remove", k]"""
+    from .env import import_library
+    pa = import_library()
+    from pyannote.core import Segment
+    units = [list(u) for u in cont["units"]]
+    names = cont["annotators"]
+    kind = edit[0]
+    unl = bool(units) and all(u[3] is None for u in units)
+
+    def lab(i):
+        return None if unl else labels[i % len(labels)]
+    if kind in ("replace", "remove") and units:
+        k = edit[1] % len(units)
+        a, s, e, l = units[k]
+        if kind == "remove" and len(units) == 1:
+            return cont
+        c.remove(a, pa.Unit(Segment(s, e), l))
+        del units[k]
+        if kind == "replace":
+            ns, nd = edit[2], edit[3]
+            new = [a, ns, ns + nd, lab(edit[4])]
+            if new not in units:
+                c.add(a, Segment(new[1], new[2]), new[3])
+                units.append(new)
+            else:
+                c.add(a, Segment(s, e), l)
+                units.append([a, s, e, l])
+    elif kind == "add":
+        a = names[edit[1] % len(names)]
+        new = [a, edit[2], edit[2] + edit[3], lab(edit[4])]
+        if new not in units:
+            c.add(a, Segment(new[1], new[2]), new[3])
+            units.append(new)
+    out = dict(cont)
+    out["units"] = units
+    return out
